@@ -165,6 +165,28 @@ lemma dualRhs_rowCost (Pz : ConeProg K) (hones : ∀ j, Pz.lp.c j = 1) (hnz : R.
     simp only [rowCost, show ¬ Pz.rowIdx j < R.nz by omega, if_false]
     split_ifs <;> simp
 
+/-! ### Truncation to the random components the support program knows -/
+
+/-- the rows with the random components `j ≥ k` dropped -/
+def trunc (k : ℕ) : RoRows K := { R with nz := k }
+
+lemma trunc_coef (k n j : ℕ) (v : ℕ → K) : (R.trunc k).coef n j v = R.coef n j v := rfl
+lemma trunc_detPart (k n : ℕ) (v : ℕ → K) : (R.trunc k).detPart n v = R.detPart n v := rfl
+
+/-- adding `t` to component `j` of the realisation adds `t` times the coefficient of `z_j` -/
+lemma eval_bump (n : ℕ) (v z : ℕ → K) (j : ℕ) (hj : j < R.nz) (t : K) :
+    R.eval n v (fun i => if i = j then z i + t else z i) = R.eval n v z + R.coef n j v * t := by
+  rw [eval_eq, eval_eq]
+  have e : ∀ i ∈ range R.nz, R.coef n i v * (if i = j then z i + t else z i)
+      = R.coef n i v * z i + (if i = j then R.coef n j v * t else 0) := by
+    intro i _
+    by_cases h : i = j
+    · subst h; rw [if_pos rfl, if_pos rfl]; ring
+    · rw [if_neg h, if_neg h, add_zero]
+  rw [Finset.sum_congr rfl e, Finset.sum_add_distrib, Finset.sum_ite_eq' (range R.nz) j,
+    if_pos (Finset.mem_range.mpr hj)]
+  ring
+
 /-! ### Assembling an assignment of the fragment's columns -/
 
 /-- decisions `v` on `[0, nd)`, multipliers `y n i` on column `ycol n i` -/
@@ -214,7 +236,9 @@ theorem leToRc_build (E : K → K → K → Prop)
       b' n j = if j < R.numRand S then - R.coef n j v * S.lp.b j else 0)
     (hy : ∀ n < R.m, ConeProg.Feas { S with lp := { S.lp with b := b' n } } E (y n))
     (h1 : ∀ n < R.m, ∑ d ∈ range R.nd, R.al n d * v d + ∑ i ∈ range S.lp.nc, S.lp.c i * y n i
-      ≤ - R.ac n) :
+      ≤ - R.ac n)
+    -- block (4): the coefficients of the random components the support does not know vanish
+    (h4 : ∀ n < R.m, ∀ j, R.numRand S ≤ j → j < R.nz → R.coef n j v = 0) :
     (R.leToRc S).prog.Feas E (R.assemble S v y) := by
   have hrowS : ∀ n < R.m, ∀ j < S.lp.nr,
       if S.lp.eq j then ∑ i ∈ range S.lp.nc, S.lp.a j i * y n i = b' n j
@@ -247,18 +271,38 @@ theorem leToRc_build (E : K → K → K → Prop)
         unfold coef at h
         rw [hdist]
         split_ifs at h ⊢ <;> linarith
-      · -- rows (3)
-        obtain ⟨hn, hk, hdec⟩ := block_decomp (r - R.m - R.m * R.numRand S) R.m
-          (S.lp.nr - R.numRand S) (by omega)
-        set n := (r - R.m - R.m * R.numRand S) / (S.lp.nr - R.numRand S)
-        set k := (r - R.m - R.m * R.numRand S) % (S.lp.nr - R.numRand S)
-        have hr' : r = R.m + R.m * R.numRand S + (n * (S.lp.nr - R.numRand S) + k) := by omega
-        have hjS : R.numRand S + k < S.lp.nr := by omega
-        rw [hr', leToRc_row3 R S n hn k hk, leToRc_b3 R S n hn k hk, leToRc_eq3 R S n hn k hk,
-          sum_assemble_ycol]
-        have h := hrowS n hn _ hjS
-        rw [hb' n hn _ hjS, if_neg (show ¬ R.numRand S + k < R.numRand S by omega)] at h
-        exact h
+      · by_cases c3 : r < R.m + R.m * R.numRand S + R.m * (S.lp.nr - R.numRand S)
+        · -- rows (3)
+          obtain ⟨hn, hk, hdec⟩ := block_decomp (r - R.m - R.m * R.numRand S) R.m
+            (S.lp.nr - R.numRand S) (by omega)
+          set n := (r - R.m - R.m * R.numRand S) / (S.lp.nr - R.numRand S)
+          set k := (r - R.m - R.m * R.numRand S) % (S.lp.nr - R.numRand S)
+          have hr' : r = R.m + R.m * R.numRand S + (n * (S.lp.nr - R.numRand S) + k) := by omega
+          have hjS : R.numRand S + k < S.lp.nr := by omega
+          rw [hr', leToRc_row3 R S n hn k hk, leToRc_b3 R S n hn k hk, leToRc_eq3 R S n hn k hk,
+            sum_assemble_ycol]
+          have h := hrowS n hn _ hjS
+          rw [hb' n hn _ hjS, if_neg (show ¬ R.numRand S + k < R.numRand S by omega)] at h
+          exact h
+        · -- rows (4)
+          have hp : R.latePresent S = true := by
+            by_contra hp
+            have : R.n4 S = 0 := by unfold n4; rw [if_neg hp]
+            omega
+          rw [n4_present R S hp] at hr
+          obtain ⟨hn, hk, hdec⟩ := block_decomp
+            (r - R.m - R.m * R.numRand S - R.m * (S.lp.nr - R.numRand S)) R.m
+            (R.nz - R.numRand S) (by omega)
+          set n := (r - R.m - R.m * R.numRand S - R.m * (S.lp.nr - R.numRand S)) / (R.nz - R.numRand S)
+          set k := (r - R.m - R.m * R.numRand S - R.m * (S.lp.nr - R.numRand S)) % (R.nz - R.numRand S)
+          have hr' : r = R.m + R.m * R.numRand S + R.m * (S.lp.nr - R.numRand S)
+              + (n * (R.nz - R.numRand S) + k) := by omega
+          rw [hr', leToRc_row4 R S n hn k hk, leToRc_b4 R S n hn k hk, leToRc_eq4 R S n hn k hk,
+            sum_assemble_dec]
+          have h := h4 n hn (R.numRand S + k) (by omega) (by omega)
+          unfold coef at h
+          simp only [if_true]
+          linarith
   · intro c hc
     rw [leToRc_nc] at hc
     by_cases c1 : c < R.nd
